@@ -1,7 +1,7 @@
 (* C16 proofs: the serialisation model round-trips every supported value and rejects
    the others. *)
 From Coq Require Import ZArith List Bool Lia Arith.
-From FV Require Import Common.ListX Common.Chunk Model.C16_Model.
+From FV Require Import Common.ListX Common.Chunk Common.SerTags Model.C16_Model.
 Import ListNotations.
 Local Open Scope Z_scope.
 
@@ -262,13 +262,16 @@ Proof.
 Qed.
 
 (* ---------- the main induction ---------- *)
+Lemma forallb_Forall_in_range d l : forallb (in_range d) l = true -> Forall (fun v => in_range d v = true) l.
+Proof. intros H. rewrite forallb_forall in H. apply Forall_forall. exact H. Qed.
+
 Definition good (v : value) : Prop :=
-  wf v = true ->
+  wfl v = true ->
   (supported v = true -> exists w, encode v = Some w /\ decode w = Some (canon v)) /\
   (supported v = false ->
      encode v = None \/ exists w, encode v = Some w /\ decode w = None).
 
-Lemma good_list vs : Forall good vs -> forallb wf vs = true ->
+Lemma good_list vs : Forall good vs -> forallb wfl vs = true ->
   (forallb supported vs = true ->
      exists ws, omap encode vs = Some ws /\ omap decode ws = Some (map canon vs)) /\
   (forallb supported vs = false ->
@@ -295,14 +298,14 @@ Qed.
 Lemma all_good : forall v, good v.
 Proof.
   apply value_ind_nested.
-  - (* dict *) intros ks vs F W. cbn [wf] in W. destruct (good_list vs F W) as [L1 L2]. split.
+  - (* dict *) intros ks vs F W. cbn [wfl] in W. destruct (good_list vs F W) as [L1 L2]. split.
     + intros S. cbn [supported] in S. apply andb_true_iff in S. destruct S as [Sk Sv].
       destruct (L1 Sv) as [ws [E D]]. exists (WMap ks ws). cbn [encode decode canon]. rewrite Sk, E, D. split; reflexivity.
     + intros S. cbn [supported] in S. cbn [encode].
       destruct (Nat.eqb (length ks) (length vs)); [|now left]. cbn [andb] in S.
       destruct (L2 S) as [N|[ws [E D]]]; [rewrite N; now left|].
       rewrite E. right. exists (WMap ks ws). split; [reflexivity|]. cbn [decode]. rewrite D. reflexivity.
-  - (* list *) intros vs F W. cbn [wf] in W. destruct (good_list vs F W) as [L1 L2]. split.
+  - (* list *) intros vs F W. cbn [wfl] in W. destruct (good_list vs F W) as [L1 L2]. split.
     + intros S. cbn [supported] in S. destruct (L1 S) as [ws [E D]]. exists (WArr ws).
       cbn [encode decode canon]. rewrite E, D. split; reflexivity.
     + intros S. cbn [supported] in S. cbn [encode].
@@ -313,27 +316,27 @@ Proof.
     intros v L W. destruct v; try (exfalso; exact L); clear L.
     + (* set *) split; [discriminate|now left].
     + (* ndarray *) split; [|discriminate]. intros _. rewrite enc_arr. eexists. split; [reflexivity|].
-      cbn [decode wf] in *. rewrite dec_ndarray, from_to_bytes by (apply wf_logical_in_range; exact W). reflexivity.
+      cbn [decode wfl] in *. rewrite dec_ndarray, from_to_bytes by (apply forallb_Forall_in_range; exact W). reflexivity.
     + (* jax *) split; [|discriminate]. intros _. rewrite enc_jax. eexists. split; [reflexivity|].
-      cbn [wf] in W. apply andb_true_iff in W. destruct W as [W _].
+      cbn [wfl] in W.
       cbn [decode]. rewrite dec_ndarray, from_to_bytes.
       * rewrite astype_native_idem. reflexivity.
-      * rewrite astype_native_logical. change (a_dt (astype_native a)) with (a_dt a). apply wf_logical_in_range. exact W.
-    + (* other dtype *) split; [discriminate|]. intros _. cbn [wf] in W. rewrite enc_other.
+      * rewrite astype_native_logical. change (a_dt (astype_native a)) with (a_dt a). apply forallb_Forall_in_range. exact W.
+    + (* other dtype *) split; [discriminate|]. intros _. cbn [wfl] in W. rewrite enc_other.
       unfold other_to_bytes. destruct (o_hasobject o || o_alignedstruct o); [now left|]. right.
       eexists. split; [reflexivity|]. cbn [decode]. rewrite dec_ndarray, other_from_bytes; [reflexivity|].
       destruct (dtype_of_name (o_name o)); [discriminate|reflexivity].
-    + (* object array *) cbn [wf] in W. rewrite enc_obj. split.
+    + (* object array *) cbn [wfl] in W. rewrite enc_obj. split.
       * intros S. cbn [supported] in S. destruct (obj_roundtrip _ S) as [flat [A B]].
         rewrite A. eexists. split; [reflexivity|].
         cbn [decode]. rewrite dec_object. unfold object_from_bytes, shape_wire.
         cbn [length Nat.eqb bytes_unpack_fields field_of]. rewrite omap_wire_nat, B, W. reflexivity.
       * intros S. cbn [supported] in S. left. rewrite (obj_reject _ S). reflexivity.
     + (* numpy scalar *) split; [|discriminate]. intros _. rewrite enc_npscalar. eexists. split; [reflexivity|].
-      cbn [wf] in W. cbn [decode]. rewrite dec_npscalar, from_to_bytes.
+      cbn [wfl] in W. cbn [decode]. rewrite dec_npscalar, from_to_bytes.
       * reflexivity.
       * cbn. constructor; [exact W|constructor].
-    + (* other numpy scalar *) split; [discriminate|]. intros _. cbn [wf] in W. rewrite enc_npother.
+    + (* other numpy scalar *) split; [discriminate|]. intros _. cbn [wfl] in W. rewrite enc_npother.
       unfold other_to_bytes. destruct (o_hasobject o || o_alignedstruct o); [now left|]. right.
       eexists. split; [reflexivity|]. cbn [decode]. rewrite dec_npscalar, other_from_bytes; [reflexivity|].
       destruct (dtype_of_name (o_name o)); [discriminate|reflexivity].
@@ -351,14 +354,90 @@ Proof.
 Qed.
 
 (* ---------- corollaries ---------- *)
-Lemma roundtrip_supported v : wf v = true -> supported v = true -> roundtrip v = Some (canon v).
+Lemma Forall_forallb_in_range d l : Forall (fun v => in_range d v = true) l -> forallb (in_range d) l = true.
+Proof. intros H. apply forallb_forall. rewrite Forall_forall in H. exact H. Qed.
+
+Lemma forallb_impl_Forall {T} (p q : T -> bool) l :
+  Forall (fun x => p x = true -> q x = true) l -> forallb p l = true -> forallb q l = true.
+Proof.
+  induction 1 as [|x l Hx _ IH]; [reflexivity|]. cbn [forallb]. intros H. apply andb_true_iff in H. destruct H as [H1 H2].
+  rewrite (Hx H1), (IH H2). reflexivity.
+Qed.
+
+Lemma wf_wfl : forall v, wf v = true -> wfl v = true.
+Proof.
+  refine (value_ind_nested (fun v => wf v = true -> wfl v = true) _ _ _ _).
+  - intros ks vs F W. cbn [wf wfl] in *. eapply forallb_impl_Forall; eauto.
+  - intros vs F W. cbn [wf wfl] in *. eapply forallb_impl_Forall; eauto.
+  - intros vs F W. cbn [wf wfl] in *. eapply forallb_impl_Forall; eauto.
+  - intros v L W. destruct v; try (exfalso; exact L); try exact W; try reflexivity.
+    + cbn [wf wfl] in *. apply Forall_forallb_in_range, wf_logical_in_range. exact W.
+    + cbn [wf wfl] in *. apply andb_true_iff in W. destruct W as [W _]. apply Forall_forallb_in_range, wf_logical_in_range. exact W.
+Qed.
+
+(* canon: fixed point, stays supported, keeps the invariant *)
+Lemma map_ext_Forall {A B} (f g : A -> B) l : Forall (fun x => f x = g x) l -> map f l = map g l.
+Proof. induction 1; cbn; congruence. Qed.
+
+Lemma canon_idem : forall v, canon (canon v) = canon v.
+Proof.
+  apply value_ind_nested.
+  - intros ks vs F. cbn [canon]. f_equal. rewrite map_map. apply map_ext_Forall. exact F.
+  - intros vs F. cbn [canon]. f_equal. rewrite map_map. apply map_ext_Forall. exact F.
+  - intros vs _. reflexivity.
+  - intros v L. destruct v; try (exfalso; exact L); try reflexivity; cbn [canon]; now rewrite astype_native_idem.
+Qed.
+
+Lemma forallb_map_Forall {T} (p : T -> bool) (f : T -> T) l :
+  Forall (fun x => p x = true -> p (f x) = true) l -> forallb p l = true -> forallb p (map f l) = true.
+Proof.
+  induction 1 as [|x l Hx _ IH]; [reflexivity|]. cbn [forallb map]. intros H. apply andb_true_iff in H. destruct H as [H1 H2].
+  rewrite (Hx H1), (IH H2). reflexivity.
+Qed.
+
+Lemma canon_supported : forall v, supported v = true -> supported (canon v) = true.
+Proof.
+  refine (value_ind_nested (fun v => supported v = true -> supported (canon v) = true) _ _ _ _).
+  - intros ks vs F S. cbn [supported canon] in *. apply andb_true_iff in S. destruct S as [S1 S2].
+    rewrite map_length, S1. cbn [andb]. apply forallb_map_Forall; assumption.
+  - intros vs F S. cbn [supported canon] in *. apply forallb_map_Forall; assumption.
+  - intros vs _ S. discriminate.
+  - intros v L S. destruct v; try (exfalso; exact L); try exact S; reflexivity.
+Qed.
+
+Lemma canon_wfl : forall v, wfl v = true -> wfl (canon v) = true.
+Proof.
+  refine (value_ind_nested (fun v => wfl v = true -> wfl (canon v) = true) _ _ _ _).
+  - intros ks vs F W. cbn [wfl canon] in *. apply forallb_map_Forall; assumption.
+  - intros vs F W. cbn [wfl canon] in *. apply forallb_map_Forall; assumption.
+  - intros vs _ W. exact W.
+  - intros v L W. destruct v; try (exfalso; exact L); try exact W;
+      cbn [wfl canon] in *; rewrite astype_native_logical; exact W.
+Qed.
+
+Lemma roundtrip_supported_l v : wfl v = true -> supported v = true -> roundtrip v = Some (canon v).
 Proof.
   intros W S. destruct (all_good v W) as [G _]. destruct (G S) as [w [E D]]. unfold roundtrip. now rewrite E.
 Qed.
 
+(* the round trip applied twice: the decoded value is a fixed point *)
+Lemma roundtrip_idempotent v : wf v = true -> supported v = true ->
+  roundtrip (canon v) = Some (canon v) /\ canon (canon v) = canon v /\ supported (canon v) = true.
+Proof.
+  intros W S. apply wf_wfl in W. repeat split.
+  - rewrite (roundtrip_supported_l (canon v) (canon_wfl v W) (canon_supported v S)). now rewrite canon_idem.
+  - apply canon_idem.
+  - apply canon_supported. exact S.
+Qed.
+
+Lemma roundtrip_supported v : wf v = true -> supported v = true -> roundtrip v = Some (canon v).
+Proof.
+  intros W S. apply wf_wfl in W. destruct (all_good v W) as [G _]. destruct (G S) as [w [E D]]. unfold roundtrip. now rewrite E.
+Qed.
+
 Lemma unsupported_rejected v : wf v = true -> supported v = false -> roundtrip v = None.
 Proof.
-  intros W S. destruct (all_good v W) as [_ H]. unfold roundtrip.
+  intros W S. apply wf_wfl in W. destruct (all_good v W) as [_ H]. unfold roundtrip.
   destruct (H S) as [N|[w [E D]]]; [now rewrite N|now rewrite E].
 Qed.
 
@@ -395,7 +474,7 @@ Proof.
   - cbn [forallb] in H. apply andb_true_iff in H. destruct H as [Hc Hcs].
     destruct (IH Hcs) as [db [B [I [F C]]]].
     unfold client_ok in Hc. apply andb_true_iff in Hc. destruct Hc as [Hc Hn].
-    apply andb_true_iff in Hc. destruct Hc as [W S].
+    apply andb_true_iff in Hc. destruct Hc as [W S]. apply wf_wfl in W.
     destruct (all_good _ W) as [G _]. destruct (G S) as [w [E D]].
     destruct c as [id [ks vs]]. unfold client_value in *. cbn [snd fst] in *.
     destruct (num_examples vs) as [n|] eqn:N; [|discriminate].
@@ -437,6 +516,12 @@ Proof.
   - rewrite <- Q. now rewrite last_last.
 Qed.
 
+
+Lemma sqlite_schema_consistent :
+  builder_tuple = table_columns /\ table_columns = [ColId; ColData; ColCount] /\
+  select_ids_cols = [ColId] /\ select_sizes_cols = [ColId; ColCount] /\ select_clients_cols = [ColId; ColData] /\
+  sqlite_row_is_id_blob_count = true /\ sqlite_reads_in_rowid_order = true /\ sqlite_fresh_cursor_per_query = true.
+Proof. repeat split. Qed.
 
 Lemma tables_consistent :
   ndarray_tuple_fields = ndarray_unpack_fields /\ bytes_tuple_fields = bytes_unpack_fields /\
